@@ -208,16 +208,19 @@ class RepozoReplayer:
         self.secs.append(self.clk)
 
     def _check_source(self, state):
-        """The concretisation itself: the real data file is the model's chunk sequence (machinery)."""
+        """The real data file is the model's chunk sequence.  The committed end is the driver's own (the size of
+        the file when the last tpc_finish / pack returned), not something the storage under test reports."""
         src = self._n(state, 'src')
         size = os.path.getsize(self.path)
         want = self.off(len(src) + (1 if state['tail'] else 0))
         if size != want:
-            raise RuntimeError('source file is %d bytes, model expects %d (src %r tail %r)' % (size, want, src, state['tail']))
-        if self.st.getSize() != self.off(len(src)) or self.committed != self.off(len(src)):
-            raise RuntimeError('committed end %d/%d, model expects %d' % (self.st.getSize(), self.committed, self.off(len(src))))
+            raise Mismatch('conformance', {'clause': 'source', 'what': 'size'},
+                           'source file is %d bytes, the model has %d (src %r tail %r)' % (size, want, src, state['tail']))
+        if self.committed != self.off(len(src)):
+            raise Mismatch('conformance', {'clause': 'source', 'what': 'committed-end'},
+                           'committed end %d, the model has %d' % (self.committed, self.off(len(src))))
         if self._read(0, self.committed) != self.cat(src):
-            raise RuntimeError('source bytes are not the chunks the model names')
+            raise Mismatch('conformance', {'clause': 'source', 'what': 'bytes'}, 'source bytes are not the chunks the model names')
 
     def source_step(self, action, args, state):
         src = self._n(state, 'src')
